@@ -192,6 +192,9 @@ def correspond(ctx):
         s_sc.add(f"scrypt salsa {hx(blk)}", lambda blk=blk: struct_salsa(blk), "salsa")
     for n, r, p in [(16, 8, 1), (15, 8, 1), (0, 1, 1), (1, 1, 1), (2, 1, 1), (-16, 8, 1), (16, 0, 1), (16, 1, 0), (1 << 20, 1 << 15, 1 << 15), (16, 1 << 29, 2), (16, 1 << 29, 1), (24, 1, 1), (1 << 40, 1, 1)] + [(rng.randrange(-4, 70), rng.randrange(-1, 10), rng.randrange(-1, 10)) for _ in range(300)]:
         s_sc.add(f"scrypt validate {n} {r} {p}", lambda n=n, r=r, p=p: (ps.validate(n, r, p), "")[1].strip(), "validate")
+    o_big = Oracle(ctx, "builtin-scrypt-vs-openssl-large-parameters")
+    for tag, inp, ok, obs, exp in scrypt_large_cases(ctx.rng, ctx.thorough):
+        o_big.check(tag, ok, inp, obs, exp)
     o_sasl = saslprep_oracle(ctx)
     o_mp = Oracle(ctx, "hmac-multipart-and-bcrypt-boundaries")
     for gen in (hmac_multipart_cases(rng, 40 if not ctx.thorough else 1500), bcrypt_core_cases(rng)):
@@ -202,13 +205,45 @@ def correspond(ctx):
     s_sasl = Suite(ctx, "saslprep-model-and-spec-vs-passlib")
     c11_saslprep.model_suite(ctx, s_sasl)
     o_nfkc = c11_saslprep.nfkc_clean_oracle(ctx)
-    res = merge(s_des, s_spec, s_dig, s_mac, s_bf, s_sc, o_sasl, o_mp, s_sasl, o_nfkc)
+    res = merge(s_des, s_spec, s_dig, s_mac, s_bf, s_sc, o_sasl, o_mp, s_sasl, o_nfkc, o_big)
     res["suites"]["bcrypt-core"]["bcrypt_wheel_cases"] = wheel_checked
     res["suites"]["des-spec-vs-passlib-and-openssl"]["openssl_pairs"] = ossl
     return res
 
 
 # ------------------------------------------------------------------------------------------
+def scrypt_large_cases(rng, thorough=False):
+    """the pure-Python scrypt engine against OpenSSL's (hashlib.scrypt) where n*r is large (memory-saving strategies, if any, kick in there)
+    and for every small shape of (n, r, p); yields (tag, input, ok, observed, expected)"""
+    import hashlib
+
+    from passlib.crypto.scrypt import _builtin as sb
+
+    big = [(2048, 8, 1), (8192, 2, 1), (1024, 16, 1), (16384, 1, 1)] + ([(4096, 8, 1), (16384, 2, 1), (2048, 8, 2), (512, 32, 1)] if thorough else [])
+    small = [(1 << a, r, p) for a in (1, 2, 5) for r in (1, 2, 3, 8) for p in (1, 2)]
+    for n, r, p in big + small:
+        pw, salt = rng.randbytes(rng.randrange(0, 24)), rng.randbytes(rng.randrange(0, 16))
+        inp = {"op": "scrypt-large", "n": n, "r": r, "p": p, "secret": pw.hex(), "salt": salt.hex()}
+        try:
+            got = sb.ScryptEngine.execute(pw, salt, n, r, p, 32).hex()
+        except Exception as e:  # noqa: BLE001
+            got = errname(e) + ": " + str(e)[:80]
+        want = hashlib.scrypt(pw, salt=salt, n=n, r=r, p=p, dklen=32, maxmem=1 << 30).hex()
+        yield ("scrypt-builtin-vs-openssl", inp, got == want, got, want)
+
+
+def md4_spec_cases(ctx):
+    """passlib's MD4 against the Lean transcription of RFC 1320 (compiled driver) at every length 0..200: (input, observed, expected) of the first difference"""
+    from passlib.crypto._md4 import md4 as pmd4
+
+    msgs = [ctx.rng.randbytes(ln) for ln in range(0, 201)]
+    outs = ctx.model([f"digest md4 {hx(m)}" for m in msgs])
+    for m, o in zip(msgs, outs):
+        if o.startswith("ok ") and pmd4(m).hexdigest() != o[3:]:
+            return {"input": {"op": "md4-vs-rfc1320", "message": m.hex(), "length": len(m)}, "observed": pmd4(m).hexdigest(), "expected": o[3:] + "  (Lean transcription of RFC 1320)"}
+    return None
+
+
 def saslprep_oracle(ctx, first_only=False):
     """passlib.utils.saslprep against an independent reading of RFC 4013 over the stdlib stringprep tables"""
     from passlib.utils import saslprep as real_saslprep
@@ -378,7 +413,13 @@ def search(ctx, broken, seeds):
     from passlib.crypto._md4 import md4 as pmd4
 
     rng = ctx.rng
-    for gen in (hmac_multipart_cases(rng, 60), bcrypt_core_cases(rng)):
+    try:
+        r = md4_spec_cases(ctx)
+    except Exception:  # noqa: BLE001
+        r = None
+    if r:
+        return r
+    for gen in (hmac_multipart_cases(rng, 60), bcrypt_core_cases(rng), scrypt_large_cases(rng)):
         for tag, inp, ok, obs, exp in gen:
             if not ok:
                 return {"input": inp, "observed": obs, "expected": exp, "check": tag}
